@@ -22,6 +22,52 @@ PROMISED = {
 }
 
 
+# single-qubit Clifford gate names (restated here, not read from the code under test)
+C1Q = ["Identity", "X", "Y", "Z", "H", "S", "Sdag", "SqrtX", "SqrtXdag", "SqrtY", "SqrtYdag"]
+PARAM_NAMES = {"ParametricRX": "RX", "ParametricRY": "RY", "ParametricRZ": "RZ", "ParametricPauliRotation": "PauliRotation"}
+FORMS = ["list", "tuple", "set", "frozenset", "generator", "dict-keys", "dup-reversed", "numpy", "shuffled"]
+
+
+def in_form(rng, names, form=None):
+    """(form name, factory) – the same collection of gate names in an argument form the in-tree callers never use.
+    The factory returns a fresh object per call (generators are one-shot)."""
+    names = list(names)
+    form = form or rng.choice(FORMS)
+    if form == "shuffled":
+        names = rng.sample(names, len(names))
+    if form == "dup-reversed":
+        names = list(reversed(names)) + names[:2]
+    if form in ("list", "shuffled", "dup-reversed"):
+        return form, (lambda: list(names))
+    if form == "tuple":
+        return form, (lambda: tuple(names))
+    if form == "set":
+        return form, (lambda: set(names))
+    if form == "frozenset":
+        return form, (lambda: frozenset(names))
+    if form == "generator":
+        return form, (lambda: (k for k in names))
+    if form == "dict-keys":
+        return form, (lambda: dict.fromkeys(names).keys())
+    if form == "numpy":
+        import numpy as np
+
+        return form, (lambda: np.array(names, dtype=str))
+    raise KeyError(form)
+
+
+def shared(factory):
+    """one transpiler object re-used by several cases (state carried between calls would show)"""
+    box = []
+
+    def make():
+        if not box:
+            box.append(factory())
+        return box[0]
+
+    return make
+
+
 def gen(ctx: Ctx):
     r = c01.gen(ctx)
     with ctx.timed("translate"):
@@ -99,15 +145,211 @@ def correspond(ctx: Ctx, presets):
         for _ in range(ctx.n(6, 80)):
             gs = qp.random_grid_circuit(rng, 3, rng.randint(2, 9), c01.ALL_KINDS)
             cases.append((f"preset:{name}", 3, gs, toks, (lambda nm=name: getattr(T, nm)())))
+    cases += form_cases(ctx, T, presets, probes)
     c01.run_cases(ctx, cases)
+
+
+def rot_pipelines(ctx: Ctx, T):
+    """RotationConversionTranspiler._construct_decomposer for every rotation subset × favourable-Clifford choice"""
+    rng = ctx.rng
+    combos = []
+    for r in range(4):
+        for rots in itertools.combinations(["RX", "RY", "RZ"], r):
+            for fav in ([], ["H"], ["SqrtX"], ["H", "SqrtX"], [k for k in C1Q if rng.random() < 0.4]):
+                combos.append((list(rots), list(fav)))
+    resp = ctx.driver([f"c01rotpipeline {','.join(r)}|{','.join(f)}" for r, f in combos])
+    for (rots, fav), m in zip(combos, resp):
+        fr, mk_r = in_form(rng, rots)
+        ff, mk_f = in_form(rng, fav)
+        try:
+            real = c01.describe(T.RotationConversionTranspiler(mk_r(), mk_f())._decomposer)
+            real = [t for t in real if t != "decomp:IdentityTranspiler"]
+        except Exception as e:  # noqa: BLE001
+            real = ["raises:" + type(e).__name__]
+        ctx.case(("rotpipeline", tuple(rots), tuple(sorted(fav))), sample=None)
+        ctx.count("arg-form", fr)
+        ctx.traces += 1
+        if c01.canon_tokens(real) != c01.canon_tokens(m.split(";") if m else []):
+            ctx.disagree("rotConvPipeline", {"target_rotation": rots, "favorable_clifford": fav, "forms": [fr, ff]}, real, m)
+    return combos
+
+
+def form_cases(ctx: Ctx, T, presets, probes):
+    """the same model/code correspondences through argument forms, explicit optional arguments, the conversion
+    transpilers called directly, and transpiler objects re-used over several circuits"""
+    rng = ctx.rng
+    cases = []
+    N = ctx.n(24, 200)
+    vocab = ["H", "X", "Y", "Z", "S", "Sdag", "SqrtX", "SqrtXdag", "SqrtY", "SqrtYdag", "T", "Tdag", "RX", "RY", "RZ",
+             "CNOT", "CZ", "SWAP", "Identity", "U1", "U2", "U3", "TOFFOLI", "Pauli", "PauliRotation"]
+    # (a) GateSetConversionTranspiler: target collection form × how the optional arguments are passed × object re-use
+    for i in range(N):
+        s = [k for k in vocab if rng.random() < 0.3]
+        if rng.random() < 0.85 and not ({"CNOT", "CZ"} & set(s)):
+            s.append(rng.choice(["CNOT", "CZ"]))
+        if rng.random() < 0.85 and not ({"RX", "RY", "RZ"} & set(s)):
+            s.append(rng.choice(["RX", "RY", "RZ"]))
+        form, mk = in_form(rng, s, FORMS[i % len(FORMS)])
+        style = i % 5
+        # grid angles are multiples of π/64, so every epsilon below is far from any threshold decision
+        if style == 0:
+            f, tok = (lambda mk=mk: T.GateSetConversionTranspiler(mk())), "1"
+        elif style == 1:
+            f, tok = (lambda mk=mk: T.GateSetConversionTranspiler(mk(), 1.0e-6)), "1"
+        elif style == 2:
+            f, tok = (lambda mk=mk: T.GateSetConversionTranspiler(mk(), 1.0e-9, False)), "0"
+        elif style == 3:
+            f, tok = (lambda mk=mk: T.GateSetConversionTranspiler(validation=True, epsilon=1.0e-12, target_gateset=mk())), "1"
+        else:
+            f, tok = (lambda mk=mk: T.GateSetConversionTranspiler(mk(), validation=0)), "0"
+        make = shared(f) if rng.random() < 0.7 else f
+        ctx.count("arg-form", form)
+        n = rng.randint(1, 4)
+        hist = []
+        for j in range(4):
+            if j == 2:  # the gates of the first call again, after another call on the same object (same outcome expected)
+                gs = hist[0] + (hist[1] if rng.random() < 0.5 else [])
+            elif j == 3:
+                gs = list(hist[rng.randrange(2)])
+            else:
+                gs = rng.choice(probes) if (n == 3 and rng.random() < 0.3) else qp.random_grid_circuit(rng, n, rng.randint(0, 8), c01.ALL_KINDS)
+            hist.append(gs)
+            cases.append((f"gateSetConv-form:{form}:{style}", n, gs, [f"gateSetConv:{tok}:" + ",".join(s)], make))
+    # (b) RotationConversionTranspiler called directly
+    for rots, fav in rot_pipelines(ctx, T):
+        form, mk_r = in_form(rng, rots)
+        _, mk_f = in_form(rng, fav)
+        style = rng.randrange(3)
+        if style == 0:
+            f = (lambda a=mk_r, b=mk_f: T.RotationConversionTranspiler(a(), b()))
+        elif style == 1:
+            f = (lambda a=mk_r, b=mk_f: T.RotationConversionTranspiler(favorable_clifford=b(), target_rotation=a()))
+        elif fav:
+            continue
+        else:
+            f = (lambda a=mk_r: T.RotationConversionTranspiler(a()))
+        make = shared(f)
+        for _ in range(2):
+            n = rng.randint(1, 3)
+            gs = qp.random_grid_circuit(rng, n, rng.randint(0, 7), ["RX", "RY", "RZ", "RX", "RY", "RZ", "H", "SqrtX", "S", "CNOT"])
+            cases.append((f"rotConv-form:{form}", n, gs, [f"rotConv:{','.join(rots)}:{','.join(fav)}"], make))
+    # (c) CliffordConversionTranspiler called directly (repeated kinds take the per-call cache path)
+    for i in range(N * 3 // 2):
+        ts = [] if i == 0 else list(C1Q) if i == 1 else [k for k in C1Q if rng.random() < rng.choice([0.15, 0.35, 0.6])]
+        form, mk = in_form(rng, ts, FORMS[i % len(FORMS)])
+        make = shared(lambda mk=mk: T.CliffordConversionTranspiler(mk()))
+        for _ in range(3):
+            n = rng.randint(1, 3)
+            pool = rng.sample(C1Q, rng.randint(1, 4)) * 3 + ["T", "CNOT", "RZ", "Tdag"]
+            gs = qp.random_grid_circuit(rng, n, rng.randint(0, 10), pool)
+            cases.append((f"clifConv-form:{form}", n, gs, ["clifConv:" + ",".join(ts)], make))
+    # (d) presets: one object over several circuits; CliffordRZSetTranspiler with its optional epsilon
+    for name, toks in presets.items():
+        variants = [(name, shared(lambda nm=name: getattr(T, nm)()))]
+        if name == "CliffordRZSetTranspiler":
+            variants += [(name + "(1e-6)", shared(lambda: T.CliffordRZSetTranspiler(1.0e-6))),
+                         (name + "(epsilon=1e-12)", shared(lambda: T.CliffordRZSetTranspiler(epsilon=1.0e-12)))]
+        for label, make in variants:
+            for _ in range(ctx.n(4, 30)):
+                n = rng.randint(1, 5)
+                gs = qp.random_grid_circuit(rng, n, rng.randint(0, 9), c01.ALL_KINDS)
+                cases.append((f"preset-reuse:{label}", n, gs, toks, make))
+    return cases
+
+
+def ctor_errors(ctx: Ctx):
+    """the constructor error branches of gateset.py: a target collection with a name outside the supported vocabulary is
+    rejected with ValueError (CliffordConversionTranspiler: single-qubit Clifford names; RotationConversionTranspiler:
+    RX/RY/RZ and single-qubit Clifford names), a supported one is accepted.  Restated, not modelled in Lean."""
+    import quri_parts.circuit.transpile as T
+
+    rng = ctx.rng
+    foreign_c = ["T", "Tdag", "RX", "RZ", "CNOT", "CZ", "SWAP", "U1", "U3", "TOFFOLI", "Pauli", "PauliRotation", "UnitaryMatrix",
+                 "Measurement", "ParametricRZ", "h", "", "SX"]
+    foreign_r = ["U1", "U2", "U3", "H", "S", "T", "CNOT", "PauliRotation", "ParametricRX", "ParametricRZ", "rx", "", "R"]
+
+    def outcome(f):
+        try:
+            f()
+            return "accepted"
+        except Exception as e:  # noqa: BLE001
+            return type(e).__name__
+
+    for i in range(ctx.n(60, 600)):
+        ts = [k for k in C1Q if rng.random() < 0.4]
+        bad = rng.sample(foreign_c, rng.choice([0, 1, 1, 2]))
+        names = ts + bad
+        rng.shuffle(names)
+        form, mk = in_form(rng, names)
+        want = "ValueError" if bad else "accepted"
+        got = outcome(lambda: T.CliffordConversionTranspiler(mk()))
+        ctx.case(("ctor-clif", tuple(sorted(names)), form), sample=None)
+        ctx.count("ctor", f"clif:{want}")
+        ctx.traces += 1
+        if got != want:
+            ctx.disagree("ctor:CliffordConversionTranspiler", {"target_gateset": names, "form": form}, got, want)
+        rots = [k for k in ("RX", "RY", "RZ") if rng.random() < 0.6]
+        fav = [k for k in C1Q if rng.random() < 0.3]
+        bad_r = rng.sample(foreign_r, rng.choice([0, 0, 1, 2]))
+        bad_f = rng.sample(foreign_c, rng.choice([0, 0, 1]))
+        a, b = rots + bad_r, fav + bad_f
+        rng.shuffle(a)
+        rng.shuffle(b)
+        fa, mk_a = in_form(rng, a)
+        fb, mk_b = in_form(rng, b)
+        want = "ValueError" if (bad_r or bad_f) else "accepted"
+        got = outcome(lambda: T.RotationConversionTranspiler(mk_a(), mk_b()))
+        ctx.case(("ctor-rot", tuple(sorted(a)), tuple(sorted(b)), fa, fb), sample=None)
+        ctx.count("ctor", f"rot:{want}")
+        ctx.traces += 1
+        if got != want:
+            ctx.disagree("ctor:RotationConversionTranspiler", {"target_rotation": a, "favorable_clifford": b, "forms": [fa, fb]}, got, want)
+
+
+def _violations(out, n, target, rot_only=False):
+    """which clauses of the property the returned circuit falsifies: {clause: description}"""
+    og = list(out.gates)
+    if rot_only:  # RotationConversionTranspiler promises only the rotation kinds
+        bad = [g for g in og if g.name in ("RX", "RY", "RZ") and g.name not in target]
+    else:
+        bad = [g for g in og if g.name not in target and not (g.name == "UnitaryMatrix" and len(g.target_indices) >= 3)]
+    idx = [q for g in og for q in tuple(g.target_indices) + tuple(g.control_indices)]
+    v = {}
+    if bad:
+        v["foreign-gate"] = f"returned {sorted({g.name for g in bad})} outside the promised set"
+    if out.qubit_count != n:
+        v["qubit-count"] = f"changed qubit_count {n}->{out.qubit_count}"
+    if idx and (max(idx) >= n or min(idx) < 0):
+        v["out-of-register"] = f"produced a gate on qubit {max(idx) if max(idx) >= n else min(idx)} of {n}"
+    return v
+
+
+def _shrink(circ, still_bad):
+    """drop gates one at a time while the violation persists (fresh transpiler per trial)"""
+    from quri_parts.circuit import QuantumCircuit
+
+    try:
+        gs = list(circ.gates)
+        i = 0
+        while i < len(gs) and len(gs) > 1:
+            trial = QuantumCircuit(circ.qubit_count, gates=gs[:i] + gs[i + 1:])
+            try:
+                keep = still_bad(trial)
+            except Exception:  # noqa: BLE001 – raising is not a violation
+                keep = False
+            if keep:
+                gs = gs[:i] + gs[i + 1:]
+            else:
+                i += 1
+        return QuantumCircuit(circ.qubit_count, gates=gs)
+    except Exception:  # noqa: BLE001
+        return circ
 
 
 def validate(ctx: Ctx, budget_s: float):
     """the property itself on the real code: names ⊆ target set (UnitaryMatrix on ≥ 3 qubits excepted) or raise;
     qubit count unchanged; no index outside the register"""
     import time
-
-    import numpy as np
 
     import quri_parts.circuit.transpile as T
     from oracle import dense
@@ -119,15 +361,48 @@ def validate(ctx: Ctx, budget_s: float):
     vocab = ["H", "X", "Y", "Z", "S", "Sdag", "SqrtX", "SqrtXdag", "SqrtY", "SqrtYdag", "T", "Tdag", "RX", "RY", "RZ",
              "CNOT", "CZ", "SWAP", "Identity", "U1", "U2", "U3", "TOFFOLI", "Pauli", "PauliRotation"]
     n_eval = 0
+    pool = []  # transpiler objects that have already been called (re-used later: state carried between calls would show)
+
+    def remember(entry):
+        if len(pool) < 60:
+            pool.append(entry)
+        else:
+            pool[rng.randrange(len(pool))] = entry
+
     while time.time() - t0 < budget_s:
-        n = rng.randint(1, 4)
-        circ = c01.random_real_circuit(rng, n, rng.randint(1, 8), full)
+        n = rng.choice([1, 2, 3, 3, 4, 4, 5, 6])
+        circ = c01.random_real_circuit(rng, n, rng.choice([0, 1, 2, 4, 6, 8, 12]), full)
+        if rng.random() < 0.3 and n >= 2:  # the last qubit is used (an off-by-one in a register bound would show)
+            circ.add_gate(rng.choice([gates.H(n - 1), gates.CZ(n - 1, 0), gates.SWAP(0, n - 1), gates.PauliRotation([n - 1, 0], [2, 1], 0.3),
+                                      gates.U3(n - 1, 0.1, 0.2, 0.3), gates.RY(n - 1, 1.0)]))
         if rng.random() < 0.15 and n >= 3:
             q = rng.sample(range(n), 3)
             circ.add_gate(gates.UnitaryMatrix(q, dense.random_unitary(rng, 8).tolist()))
-        if rng.random() < 0.4:
+        if rng.random() < 0.3:
+            circ = circ.freeze()
+        r = rng.random()
+        rot_only = False
+        entry = None
+        if pool and r < 0.25:
+            entry = rng.choice(pool)
+            make, target, label, rot_only = entry["make"], entry["target"], entry["label"], entry["rot_only"]
+            if rng.random() < 0.5:  # the very input of an earlier call (which may have raised then) on the same object
+                circ = rng.choice(entry["calls"])
+            entry["calls"].append(circ)
+        elif r < 0.5:
             name = rng.choice(list(PROMISED))
             make, target, label = (lambda nm=name: getattr(T, nm)()), PROMISED[name], name
+            if name == "CliffordRZSetTranspiler" and rng.random() < 0.5:
+                eps = rng.choice([1e-12, 1e-6, 1e-3, 0.0])
+                make = (lambda e=eps: T.CliffordRZSetTranspiler(e)) if rng.random() < 0.5 else (lambda e=eps: T.CliffordRZSetTranspiler(epsilon=e))
+                label = f"{name}({eps})"
+        elif r < 0.6:
+            rots = [k for k in ("RX", "RY", "RZ") if rng.random() < 0.6]
+            fav = [k for k in C1Q if rng.random() < 0.3]
+            fr, mk_r = in_form(rng, rots)
+            _, mk_f = in_form(rng, fav)
+            make = (lambda a=mk_r, b=mk_f: T.RotationConversionTranspiler(a(), b()))
+            target, label, rot_only = set(rots), f"RotationConversion({rots},{fav};{fr})", True
         else:
             s = [k for k in vocab if rng.random() < 0.3]
             if rng.random() < 0.8 and not ({"CNOT", "CZ"} & set(s)):
@@ -135,36 +410,389 @@ def validate(ctx: Ctx, budget_s: float):
             if rng.random() < 0.8 and not ({"RX", "RY", "RZ"} & set(s)):
                 s.append(rng.choice(["RX", "RY", "RZ"]))
             eps = rng.choice([1e-9, 1e-9, 1e-6, 1e-12])
-            make, target, label = (lambda s=s, e=eps: T.GateSetConversionTranspiler(s, epsilon=e)), set(s), f"GateSetConversion({s})"
+            form, mk = in_form(rng, s)
+            style = rng.randrange(4)
+            if style == 0:
+                make = (lambda mk=mk, e=eps: T.GateSetConversionTranspiler(mk(), epsilon=e))
+            elif style == 1:
+                make = (lambda mk=mk, e=eps: T.GateSetConversionTranspiler(mk(), e, True))
+            elif style == 2:
+                make = (lambda mk=mk, e=eps: T.GateSetConversionTranspiler(validation=1, target_gateset=mk(), epsilon=e))
+            else:
+                make = (lambda mk=mk: T.GateSetConversionTranspiler(mk()))
+            target, label = set(s), f"GateSetConversion({s};{form};{style})"
+            ctx.count("validate-form", form)
         n_eval += 1
+        tr = None
         try:
-            out = make()(circ)
+            tr = make()
+            out = tr(circ)
         except Exception as e:  # allowed
             ctx.count("validate", "raised:" + type(e).__name__)
+            if tr is not None and entry is None and rng.random() < 0.5:
+                remember({"make": (lambda tr=tr: tr), "target": target, "label": label + "[re-used]", "rot_only": rot_only, "calls": [circ]})
             continue
-        bad = [g for g in out.gates if g.name not in target and not (g.name == "UnitaryMatrix" and len(g.target_indices) >= 3)]
-        idx = [q for g in out.gates for q in tuple(g.target_indices) + tuple(g.control_indices)]
+        if entry is None and rng.random() < 0.3:
+            remember({"make": (lambda tr=tr: tr), "target": target, "label": label + "[re-used]", "rot_only": rot_only, "calls": [circ]})
+        try:
+            v = _violations(out, circ.qubit_count, target, rot_only)
+        except Exception as e:  # noqa: BLE001
+            ctx.disagree("validate:" + label.split("(")[0], c01.describe_circ(circ), f"result cannot be inspected: {type(e).__name__}: {e}", "a circuit")
+            continue
         ctx.count("validate", "ok")
-        if bad:
-            ctx.witness("foreign-gate:" + label.split("(")[0], f"{label} returned {sorted({g.name for g in bad})} outside the promised set",
-                        c01.describe_circ(circ), {"target": sorted(target)})
-        if out.qubit_count != circ.qubit_count:
-            ctx.witness("qubit-count:" + label.split("(")[0], f"{label} changed qubit_count {circ.qubit_count}->{out.qubit_count}", c01.describe_circ(circ))
-        if idx and (max(idx) >= circ.qubit_count or min(idx) < 0):
-            ctx.witness("out-of-register:" + label.split("(")[0], f"{label} produced a gate on qubit {max(idx)}", c01.describe_circ(circ))
+        key = label.split("(")[0].split("[")[0]
+        for kind, what in v.items():
+            shown, detail = circ, {"target": sorted(target)}
+            if entry is not None:
+                detail["earlier_calls_on_the_same_object"] = [c01.describe_circ(c) for c in entry["calls"][:-1][-4:]]
+            elif sum(1 for w in ctx.witnesses if w["key"] == f"{kind}:{key}") < 3:
+                shown = _shrink(circ, lambda c, kind=kind: kind in _violations(make()(c), c.qubit_count, target, rot_only))
+            ctx.witness(f"{kind}:{key}", f"{label} {what}", c01.describe_circ(shown), detail)
     ctx.evaluations += n_eval
     ctx.extra["oracle_validation"] = {"evaluations": n_eval}
     ctx.search_budget_s = budget_s
 
 
+def parametric_error_branches(ctx: Ctx):
+    """the two error branches of ParametricRX2RZHTranspiler / ParametricRY2RZHTranspiler ("Unsupported parametric gate",
+    "Parametric gate with no Parameter"): reachable only through an object that merely satisfies
+    ParametricQuantumCircuitProtocol; such a gate is rejected with ValueError rather than dropped or passed on"""
+    try:
+        import quri_parts.circuit.transpile as T
+        from quri_parts.circuit import ParametricQuantumCircuit, ParametricQuantumGate
+
+        base = ParametricQuantumCircuit(3)
+        base.add_ParametricRX_gate(0)
+        base.add_H_gate(1)
+        base.add_ParametricRY_gate(2)
+        base.add_ParametricPauliRotation_gate((2, 0), (1, 3))
+        gp = list(base.gates_and_params)
+        par = base.param_mapping.in_params[0]
+    except Exception as e:  # noqa: BLE001
+        ctx.disagree("parametric-error-branch", "setup", f"{type(e).__name__}: {e}", "a parametric circuit can be built")
+        return
+
+    class Prim:
+        def __init__(self, pairs):
+            self.gates_and_params = pairs
+            self.gates = [g for g, _ in pairs]
+
+    class Duck:
+        qubit_count, cbit_count, param_mapping = 3, 0, base.param_mapping
+
+        def __init__(self, pairs):
+            self._pairs = pairs
+
+        def primitive_circuit(self):
+            return Prim(self._pairs)
+
+    rng = ctx.rng
+    for cls in ("ParametricRX2RZHTranspiler", "ParametricRY2RZHTranspiler"):
+        for kind in ("supported", "unsupported-name", "no-parameter"):
+            for _ in range(ctx.n(3, 20)):
+                pairs = list(gp)
+                pos = rng.randint(0, len(pairs))
+                if kind == "unsupported-name":
+                    nm = rng.choice(["ParametricU1", "ParametricRZZ", "ParametricH", "ParametricU3", "ParametricCRX"])
+                    try:
+                        pairs.insert(pos, (ParametricQuantumGate(name=nm, target_indices=(rng.randrange(3),)), par))
+                    except Exception:  # noqa: BLE001 – the gate class (not under test) refuses the name
+                        ctx.count("param-error-branch", "gate-not-constructible")
+                        continue
+                elif kind == "no-parameter":
+                    i = rng.choice([0, 2, 3])
+                    pairs[i] = (pairs[i][0], None)
+                want = "accepted" if kind == "supported" else "ValueError"
+                try:
+                    getattr(T, cls)()(Duck(pairs))
+                    got = "accepted"
+                except Exception as e:  # noqa: BLE001
+                    got = type(e).__name__
+                ctx.case(("param-error-branch", cls, kind, tuple(g.name for g, _ in pairs), pos), sample=None)
+                ctx.traces += 1
+                if got != want:
+                    ctx.disagree("parametric-error-branch:" + cls, {"kind": kind, "gates": [g.name for g, _ in pairs],
+                                                                   "params": [q is not None for _, q in pairs]}, got, want)
+
+
+# ---------------------------------------------------------------------------
+# parametric entry points (ParametricRX2RZHTranspiler, ParametricRY2RZHTranspiler and the parametric STAR pipeline
+# that the STAR / Clifford+T device definitions build from them); no Lean model of parametric circuits: independent oracle
+# ---------------------------------------------------------------------------
+FIXED_FOR_PARAM = qp.ONE_Q + ["RX", "RY", "RZ", "RX", "RY", "U1", "U2", "U3", "CNOT", "CZ", "SWAP", "TOFFOLI", "Pauli", "PauliRotation"]
+
+
+def random_param_recipe(rng, fixed_kinds=None):
+    """a JSON-able construction recipe of a parametric circuit (unbound or linear-mapped, mutable or frozen)"""
+    n = rng.choice([1, 2, 2, 3, 3, 4, 5])
+    linear = rng.random() < 0.6
+    npar = rng.randint(1, 4)
+    steps = []
+    length = rng.choice([0, 1, 2, 4, 6, 9])
+    fixed_kinds = fixed_kinds or FIXED_FOR_PARAM
+    p_par = rng.choice([0.0, 0.3, 0.5, 0.8, 1.0])
+    for _ in range(length):
+        if rng.random() < p_par:
+            k = rng.choice(["ParametricRX", "ParametricRY", "ParametricRX", "ParametricRY", "ParametricRZ", "ParametricPauliRotation"])
+            if linear:
+                r = rng.random()
+                if r < 0.35:
+                    fn = f"p{rng.randrange(npar)}"
+                else:
+                    fn = {f"p{j}": rng.choice([-2.0, -1.0, 0.5, 1.0, 2.0, 3.0]) for j in rng.sample(range(npar), rng.randint(1, npar))}
+                    if rng.random() < 0.3:
+                        fn["const"] = round(rng.uniform(-3, 3), 3)
+            else:
+                fn = None
+            if k == "ParametricPauliRotation":
+                m = rng.randint(1, min(n, 3))
+                steps.append([k, rng.sample(range(n), m), [rng.randint(1, 3) for _ in range(m)], fn])
+            else:
+                steps.append([k, [rng.choice([0, n - 1, rng.randrange(n)])], [], fn])
+        else:
+            g = None
+            while g is None:
+                g = qp.random_gate(rng, n, rng.choice([k for k in fixed_kinds if n >= {"TOFFOLI": 3, "CNOT": 2, "CZ": 2, "SWAP": 2}.get(k, 1)]))
+            name, c, t, prm, ids = g
+            steps.append(["fixed", name, list(c), list(t), [c01.nongrid_angle(rng) for _ in prm], list(ids)])
+    return {"type": "linear" if linear else "unbound", "n": n, "cbits": rng.choice([0, 0, 0, 1, 2]), "npar": npar,
+            "frozen": rng.random() < 0.35, "steps": steps}
+
+
+def build_param(recipe):
+    from quri_parts.circuit import CONST, LinearMappedParametricQuantumCircuit, ParametricQuantumCircuit, QuantumGate
+
+    n = recipe["n"]
+    if recipe["type"] == "linear":
+        c = LinearMappedParametricQuantumCircuit(n, recipe["cbits"])
+        ps = c.add_parameters(*[f"p{i}" for i in range(recipe["npar"])])
+        byname = {f"p{i}": p for i, p in enumerate(ps)}
+        byname["const"] = CONST
+    else:
+        c = ParametricQuantumCircuit(n, recipe["cbits"])
+    for st in recipe["steps"]:
+        if st[0] == "fixed":
+            _, name, ctl, tgt, prm, ids = st
+            c.add_gate(QuantumGate(name=name, target_indices=tuple(tgt), control_indices=tuple(ctl), params=tuple(prm), pauli_ids=tuple(ids)))
+            continue
+        k, tgt, ids, fn = st
+        args = []
+        if fn is not None:
+            args = [byname[fn] if isinstance(fn, str) else {byname[a]: v for a, v in fn.items()}]
+        if k == "ParametricPauliRotation":
+            c.add_ParametricPauliRotation_gate(tuple(tgt), tuple(ids), *args)
+        else:
+            getattr(c, f"add_{k}_gate")(tgt[0], *args)
+    return c.freeze() if recipe["frozen"] else c
+
+
+def _stream(circ, bound):
+    """gate stream of a parametric circuit: fixed gates with their values, parametric gates with the bound angle"""
+    out = []
+    for g, b in zip(circ.gates, bound.gates):
+        par = g.name in PARAM_NAMES
+        out.append({"kind": g.name, "targets": tuple(g.target_indices), "controls": tuple(g.control_indices),
+                    "ids": tuple(g.pauli_ids), "params": tuple(float(x) for x in b.params), "par": par})
+    return out
+
+
+def _fixed(kind, q, params=()):
+    return {"kind": kind, "targets": (q,), "controls": (), "ids": (), "params": tuple(params), "par": False}
+
+
+def _expand(which, stream):
+    """restated behaviour of ParametricRX2RZHTranspiler / ParametricRY2RZHTranspiler on a gate stream
+    (the repo's tests pin exactly these sequences)"""
+    import math
+
+    out = []
+    for e in stream:
+        if e["par"] and e["kind"] == "Parametric" + which:
+            q = e["targets"][0]
+            prz = dict(e, kind="ParametricRZ")
+            if which == "RX":
+                out += [_fixed("H", q), prz, _fixed("H", q)]
+            else:
+                out += [_fixed("RZ", q, (-math.pi / 2,)), _fixed("H", q), prz, _fixed("H", q), _fixed("RZ", q, (math.pi / 2,))]
+        else:
+            out.append(e)
+    return out
+
+
+def _diff_stream(expected, out, out_bound):
+    """None or the first difference between the restated stream and the real result (unbound names + bound values)"""
+    og, ob = list(out.gates), list(out_bound.gates)
+    if len(og) != len(expected) or len(ob) != len(expected):
+        return f"length {len(og)} (bound {len(ob)}) vs expected {len(expected)}"
+    for i, (e, g, b) in enumerate(zip(expected, og, ob)):
+        if (g.name, tuple(g.target_indices), tuple(g.control_indices), tuple(g.pauli_ids)) != (e["kind"], e["targets"], e["controls"], e["ids"]):
+            return f"gate {i}: {g} vs expected {e}"
+        bname = PARAM_NAMES.get(e["kind"], e["kind"])
+        if b.name != bname or tuple(b.target_indices) != e["targets"] or len(b.params) != len(e["params"]):
+            return f"bound gate {i}: {b} vs expected {bname}{e['params']}"
+        if any(abs(float(x) - y) > 1e-9 for x, y in zip(b.params, e["params"])):
+            return f"bound gate {i}: angle {tuple(b.params)} vs expected {e['params']}"
+    return None
+
+
+def _param_violations(out, circ, n, spec, star):
+    """clauses of the property falsified by the result of a parametric entry point: {clause: description}"""
+    in_names = {g.name for g in circ.gates}
+    og = list(out.gates)
+    names = [g.name for g in og]
+    idx = [q for g in og for q in tuple(g.target_indices) + tuple(g.control_indices)]
+    big_um = {i for i, g in enumerate(og) if g.name == "UnitaryMatrix" and len(g.target_indices) >= 3}
+    if isinstance(spec, list):
+        allowed = set(in_names)
+        for w in spec:
+            if "Parametric" + w in in_names:
+                allowed |= {"H", "ParametricRZ"} | ({"RZ"} if w == "RY" else set())
+        for w in spec:
+            allowed.discard("Parametric" + w)
+    elif spec is None:
+        allowed = star
+    else:
+        allowed = PROMISED[spec] | (in_names & set(PARAM_NAMES))
+    bad = sorted({nm for i, nm in enumerate(names) if nm not in allowed and i not in big_um})
+    v = {}
+    if bad:
+        v["foreign-gate"] = f"returned {bad} outside the promised set {sorted(allowed)}"
+    if out.qubit_count != n:
+        v["qubit-count"] = f"changed qubit_count {n}->{out.qubit_count}"
+    if idx and (max(idx) >= n or min(idx) < 0):
+        v["out-of-register"] = f"produced a gate on qubit {max(idx) if max(idx) >= n else min(idx)} of {n}"
+    return v
+
+
+def _shrink_recipe(recipe, still_bad):
+    try:
+        steps = list(recipe["steps"])
+        i = 0
+        while i < len(steps) and len(steps) > 1:
+            trial = dict(recipe, steps=steps[:i] + steps[i + 1:])
+            try:
+                keep = still_bad(trial)
+            except Exception:  # noqa: BLE001
+                keep = False
+            if keep:
+                steps = trial["steps"]
+            else:
+                i += 1
+        return dict(recipe, steps=steps)
+    except Exception:  # noqa: BLE001
+        return recipe
+
+
+def parametric(ctx: Ctx, budget_s: float):
+    """parametric circuits through the parametric gate-set conversion entry points.  Promises judged on the REAL code:
+      ParametricRX2RZHTranspiler: no ParametricRX remains, the only new kinds are H and ParametricRZ;
+      ParametricRY2RZHTranspiler: no ParametricRY remains, the only new kinds are RZ, H and ParametricRZ;
+      both in either order: neither remains;
+      the parametric STAR pipeline (PauliRotation decomposition, the two above, ParametricTranspiler(STARSetTranspiler())):
+        every gate is in {H, S, RZ, CNOT} ∪ {ParametricRZ};
+      ParametricTranspiler(preset): fixed gates in the preset's set, parametric kinds ⊆ those of the input;
+    always: qubit count unchanged, every index inside the register; or the call raises.
+    In addition the exact gate sequence (and, after binding random values, every angle) is compared with a restatement."""
+    import time
+
+    import quri_parts.circuit.transpile as T
+
+    rng = ctx.rng
+    t0 = time.time()
+    star = PROMISED["STARSetTranspiler"] | {"ParametricRZ"}
+
+    def mk_star():
+        return T.ParametricSequentialTranspiler([T.ParametricPauliRotationDecomposeTranspiler(), T.ParametricRX2RZHTranspiler(),
+                                                 T.ParametricRY2RZHTranspiler(), T.ParametricTranspiler(T.STARSetTranspiler())])
+
+    configs = [
+        ("ParametricRX2RZHTranspiler", lambda: T.ParametricRX2RZHTranspiler(), ["RX"]),
+        ("ParametricRY2RZHTranspiler", lambda: T.ParametricRY2RZHTranspiler(), ["RY"]),
+        ("ParametricSequential[RX2RZH,RY2RZH]", lambda: T.ParametricSequentialTranspiler([T.ParametricRX2RZHTranspiler(), T.ParametricRY2RZHTranspiler()]), ["RX", "RY"]),
+        ("ParametricSequential[RY2RZH,RX2RZH]", lambda: T.ParametricSequentialTranspiler([T.ParametricRY2RZHTranspiler(), T.ParametricRX2RZHTranspiler()]), ["RY", "RX"]),
+        ("ParametricSTAR", mk_star, None),
+    ] + [(f"ParametricTranspiler({nm})", (lambda nm=nm: T.ParametricTranspiler(getattr(T, nm)())), nm) for nm in PROMISED]
+    pool = {}
+    n_eval = 0
+    it = 0
+    while time.time() - t0 < budget_s or it < len(configs) * 4:
+        label, make, spec = configs[it % len(configs)] if it < len(configs) * 4 else rng.choice(configs)
+        it += 1
+        recipe = random_param_recipe(rng)
+        inp = {"transpiler": label, "circuit": recipe}
+        try:
+            circ = build_param(recipe)
+            list(circ.gates)
+        except Exception as e:  # noqa: BLE001 – the circuit classes are not under test here
+            ctx.count("parametric", "unbuildable:" + type(e).__name__)
+            continue
+        n_eval += 1
+        ctx.count("parametric", label.split("(")[0])
+        ctx.count("parametric-form", recipe["type"] + ("-frozen" if recipe["frozen"] else ""))
+        try:
+            if label not in pool or rng.random() < 0.5:  # half of the calls re-use an object that has already been called
+                pool[label] = make()
+            out = pool[label](circ)
+        except Exception as e:  # noqa: BLE001 – raising is allowed by the property
+            ctx.count("parametric", "raised:" + type(e).__name__)
+            if isinstance(spec, list):  # the two rotation converters are total on supported parametric circuits
+                ctx.disagree("parametric-restatement:" + label, inp, "raises " + type(e).__name__, "no error branch is reachable")
+            continue
+        try:
+            v = _param_violations(out, circ, recipe["n"], spec, star)
+        except Exception as e:  # noqa: BLE001
+            ctx.disagree("parametric-restatement:" + label, inp, f"result cannot be inspected: {type(e).__name__}: {e}", "a parametric circuit")
+            continue
+        short = label.split("(")[0].split("[")[0] + (":" + spec if isinstance(spec, str) else "")
+        for kind, what in v.items():
+            shown, note = recipe, "only observed on a transpiler object that had been called before"
+
+            def still_bad(rc, kind=kind):
+                return kind in _param_violations(make()(build_param(rc)), build_param(rc), rc["n"], spec, star)
+
+            try:
+                fresh = still_bad(recipe)
+            except Exception:  # noqa: BLE001
+                fresh = False
+            if fresh:
+                note = "a fresh transpiler object reproduces it"
+                if sum(1 for w in ctx.witnesses if w["key"] == f"{kind}:{short}") < 3:
+                    shown = _shrink_recipe(recipe, still_bad)
+            ctx.witness(f"{kind}:{short}", f"{label} {what}", {"transpiler": label, "circuit": shown},
+                        {"note": "circuit = construction recipe (harness/c02.py build_param); " + note})
+        if isinstance(spec, list):
+            ctx.traces += 1
+            vals = None
+            try:
+                vals = [round(rng.uniform(-3, 3), 3) for _ in range(circ.parameter_count)]
+                expected = _stream(circ, circ.bind_parameters(vals))
+                for w in spec:
+                    expected = _expand(w, expected)
+                why = _diff_stream(expected, out, out.bind_parameters(vals))
+            except Exception as e:  # noqa: BLE001
+                why = f"cannot bind / inspect: {type(e).__name__}: {e}"
+            if why:
+                ctx.disagree("parametric-restatement:" + label, dict(inp, values=vals), why, "restated expansion")
+        ctx.case(("parametric", label, repr(recipe)), sample=None)
+    ctx.extra["oracle_parametric"] = {"evaluations": n_eval}
+
+
 def run(ctx: Ctx, replay=None) -> int:
     ctx.rule = ("cases = (target set → pipeline structure) and (pipeline or preset, grid circuit) real vs Lean model; "
-                "distinct = distinct keys; plus direct validation of the property on the real code (names ⊆ promised or raise)")
+                "distinct = distinct keys; the same through argument forms (set / generator / numpy / duplicates …), explicit optional "
+                "arguments, RotationConversion / CliffordConversion called directly and re-used transpiler objects; constructor and "
+                "parametric error branches vs a restatement; plus direct validation of the property on the real code (names ⊆ promised "
+                "or raise; qubit count; register) for plain circuits and for the parametric entry points")
     ctx.trusted = c01.TRUSTED[:5] + [
         "kind-level abstract interpretation (Model/C02.lean) proved sound for the pass model (Proof/C02.lean: run_kinds)",
         "UnitaryMatrix decomposition output kinds are not in the model (numerical code): checked per instance on the real code",
     ]
-    ctx.assumptions = ["promised sets: RZ {X,SqrtX,CNOT,RZ}; rotation {RX,RY,RZ,CNOT}; Clifford+RZ as in the docstring; STAR {H,S,RZ,CNOT}"]
+    ctx.assumptions = ["promised sets: RZ {X,SqrtX,CNOT,RZ}; rotation {RX,RY,RZ,CNOT}; Clifford+RZ as in the docstring; STAR {H,S,RZ,CNOT}",
+                       "parametric promises (no docstring; read off the class names and the device definitions that use them): "
+                       "ParametricRX2RZH removes ParametricRX adding only H/ParametricRZ; ParametricRY2RZH removes ParametricRY adding only "
+                       "RZ/H/ParametricRZ; parametric STAR pipeline ⊆ {H,S,RZ,CNOT,ParametricRZ}; ParametricTranspiler(preset): fixed gates in "
+                       "the preset's set, parametric gates kept",
+                       "RotationConversionTranspiler promises only that no RX/RY/RZ outside target_rotation is returned (its docstring)"]
     tp, desc, tab, presets = gen(ctx)
     ok = ctx.prove(["QuriVerif.Props.C02", "QuriVerif.Driver.All"],
                    ["QuriVerif.Props.C02", "QuriVerif.Generated.C02Presets", "QuriVerif.Generated.C01Templates",
@@ -174,7 +802,11 @@ def run(ctx: Ctx, replay=None) -> int:
         ctx.audit(names + ["QV.C02.run_kinds"], ["QuriVerif.Props.C02"])
         with ctx.timed("correspond"):
             correspond(ctx, presets)
+    with ctx.timed("ctor_errors"):
+        ctor_errors(ctx)
+        parametric_error_branches(ctx)
+    with ctx.timed("oracle_parametric"):
+        parametric(ctx, (6 if ctx.quick() else 90) * (1 if ok and not ctx.disagreements else 3))
     with ctx.timed("oracle_validation"):
-        budget = (15 if ctx.quick() else 180) * (1 if ok and not ctx.disagreements else 3)
-        validate(ctx, budget)
+        validate(ctx, (15 if ctx.quick() else 180) * (1 if ok and not ctx.disagreements else 3))
     return ctx.finish()
